@@ -269,7 +269,8 @@ def run(tier, selftest=False, only=None):
     if r.ok and len(grids) < 216:
         raise MachineryError("only %d grids emitted" % len(grids))
     for g in grids:
-        api_checks(rep, g)
+        with rep.guard("api", {"w": g["w"], "h": g["h"], "d": g["d"], "bc": g["bc"]}):
+            api_checks(rep, g)
     engine_checks(rep, grids)
     equivalence_checks(rep, rng, 150 if tier == "quick" else 2000, 200 if tier == "quick" else 1000)
     rep.traces = len(grids)
